@@ -39,6 +39,8 @@ InitSt == [hs |-> TRUE,            \* still in the opening handshake
            ioev |-> 0,             \* number of I/O-thread records so far
            deadat |-> <<>>,        \* handle -> value of ioev when the model dropped its queues
            cdropat |-> <<>>,       \* consumer -> value of ioev when the model dropped the sender of its queue
+           preclose |-> <<>>,      \* handle -> messages it had handed over (calls returned) when Connection::close was
+                                   \* called and that the I/O thread has not pulled yet
            proven |-> {},          \* handles that have themselves observed their queues gone
            prepop |-> <<>>,        \* handle -> reply it had already taken off its queue (see TFrame)
            frame_max |-> 131072]
@@ -207,7 +209,15 @@ TCall ==
           /\ st' = [st EXCEPT !.blkq = IF e.op = "listen_blocked" /\ ~w.hs["conn"].dead THEN Append(@, e.as) ELSE @,
                               !.cancelled = IF e.op \in {"cancel", "dropc"} THEN @ \cup {e.args.c} ELSE @,
                               !.chclosed = IF e.op \in {"close", "droph"} THEN @ \cup {e.h} ELSE @,
-                              !.closed = IF e.op \in {"closeconn", "dropconn"} THEN TRUE ELSE @]
+                              !.closed = IF e.op \in {"closeconn", "dropconn"} THEN TRUE ELSE @,
+                              \* what every handle without a call in flight has handed over by now was accepted
+                              \* before the close: it must go out before the Close does
+                              !.preclose = IF e.op \in {"closeconn", "dropconn"} /\ ~st.closed
+                                           THEN [x \in {y \in DOMAIN w.hs \ {"conn"} :
+                                                         /\ ~w.hs[y].dead
+                                                         /\ \A t \in DOMAIN ops : HandleName(ops[t]) # y} |->
+                                                     Len(w.hs[x].pend)]
+                                           ELSE @]
           /\ seen' = seen
           /\ Step(<< <<"ANY:driver-knows-handle", known>> >>)
 
@@ -219,9 +229,15 @@ TChanmsg ==
     /\ LET e == Rec[l]
            h == HandleOf(w, e.ch)
            ok == ~w.gone /\ h # "" /\ w.hs[h].pend # <<>> /\ KindNo(Head(w.hs[h].pend).k) = e.kind
-       IN /\ Step(<< <<"C01:chan-order", ok>> >>)
+           \* the client's Close is taken: nothing a channel handed over before close() was called may be left
+           \* behind (it would never be written: C18 "every message accepted before, during and after the stall
+           \* is transmitted", C08 "writes everything queued before")
+           left == {x \in DOMAIN st.preclose : st.preclose[x] > 0 /\ Has(w.hs, x) /\ ~w.hs[x].dead}
+       IN /\ Step(<< <<"C01:chan-order", ok>>,
+                     <<"C18:accepted-lost", (ok /\ e.kind = 1) => left = {}>> >>)
           /\ w' = IF ok THEN Pull(w, e.ch) ELSE w
-          /\ st' = [IoStep(w, w) EXCEPT !.cclosed = @ \/ (ok /\ e.kind = 1)]
+          /\ st' = [IoStep(w, w) EXCEPT !.cclosed = @ \/ (ok /\ e.kind = 1),
+                                        !.preclose = IF ok /\ Has(@, h) /\ @[h] > 0 THEN [@ EXCEPT ![h] = @ - 1] ELSE @]
           /\ UNCHANGED <<ops, seen>>
 
 TAlloc ==
